@@ -37,7 +37,7 @@ CLAIMED = {
             "a rotation/swap/reversal family beyond; chunked completion for imap_unordered), for 2-4 sensors (5 thorough), 1-2 layers, LGS/NGS "
             "mixes; rebuilding on one object with the thread count toggled (programs of up to 3 builds) returns the same terms",
             "multiprocessing.Pool assumed to meet its documented ordering contract; replay uses a controlled pool executing the witness schedule and the real Pool."),
-    "C04": ("3 C04", "for both screen variants with pixel_scale, r0, L0, screen contents and innovation symbolic: the covariance blocks equal "
+    "C04": ("3 C04", "(the row law is replayed from the witness's screen state, also magnified) for both screen variants with pixel_scale, r0, L0, screen contents and innovation symbolic: the covariance blocks equal "
             "c(true pixel separation) for exactly the stencil points add_row reads and the new row at row -1 (sizes incl. requested sizes that are "
             "not 2^n+1, up to internal 9 quick / 17 thorough); A Cov_zz = Cov_xz; A Cov_zz A^T + B B^T = Cov_xx through the SVD cut-point lemma chain "
             "(stencils up to 7 points quick / 8 thorough, direct cross-check up to 6); add_row() returns A Z + B b (Fried: relative to the reference "
@@ -52,7 +52,7 @@ CLAIMED = {
             "nx <= 300 quick / 4096 thorough (own explorer, all paths) and by CrossHair; the theoretical covariance is a fixed point of the vK "
             "recursion (C04 identities). NOT claimed: finiteness of values, stability and uniqueness of the stationary covariance (spectral radius)",
             "initial screen and covariance function are cut-points; A is an opaque matrix for the shift/shape obligations."),
-    "C06": ("3 C06", "term identity (=> bit identity) of seeded ft_phase_screen, ft_sh_phase_screen and both infinite screens incl. two added rows, with a "
+    "C06": ("3 C06", "(the caller edits the first reproduction in place before asking again: a memoised screen handed out by reference shows) term identity (=> bit identity) of seeded ft_phase_screen, ft_sh_phase_screen and both infinite screens incl. two added rows, with a "
             "symbolic integer seed and symbolic parameters: the result after a history of interleaved operations (other instances with other or the "
             "same seed, rows added on other instances - also BETWEEN the rows of the screen under test (live other objects) -, numpy.random.seed / "
             "global draws, FFT screens with other inner scale; programs of length <= 2 quick / all pairs + triples thorough) equals the result in a history-free process, and a second reproduction after more interleaving "
@@ -75,7 +75,7 @@ CLAIMED = {
             "what it returns for the same values in float64, and acts element-wise on separation arrays of any shape (2x2, 1x2, 2x3, 2x1x2). NOT claimed: monotonicity, Hankel-transform relation, "
             "positive semi-definiteness for arbitrary point sets (analytic facts about K_{5/6})",
             "kv uninterpreted and positive; Gamma constants enclosed within 1e-12 of libm; D >= 0 assumed in the formula-consistency lemma."),
-    "C09": ("4 C09", "ft/ift/ft2/ift2 and the real variants, as exported by the module and by the package, are inverse "
+    "C09": ("4 C09", "(transform of a REAL array = transform of the same values given as a complex array, 1-D N 3-4, 2-D 3x3, 2x3 quick) ft/ift/ft2/ift2 and the real variants, as exported by the module and by the package, are inverse "
             "pairs, linear, satisfy Parseval, equal the centred DFT (origin at the centre sample) and obey the shift "
             "theorem for every complex input and every delta>0 at each listed size (1-D N<=5 quick / <=8 thorough, "
             "2-D N<=4 / <=6, batch shapes); decided per size by z3 over exact algebraic twiddles; the transform of a boolean- or integer-typed 0/1 array "
@@ -86,7 +86,7 @@ CLAIMED = {
             "of either sign at N in {2,4,8} quick / up to 16 thorough; power conserved in every call of a history of 11 calls whose geometries differ "
             "in one parameter at a time (nothing carried over from an earlier geometry); a REAL-typed input field (float64 quick; bool, int64, float32 thorough) propagates like the same values as "
             "complex128; ft2/ift2 replaced by their C09 contract; monolithic exact-DFT cross-check at N=2", ""),
-    "C11": ("4 C11", "algebraic part only: z=0 returns the input; unit-magnification group law P(z2)oP(z1)=P(z1+z2), P(-z)oP(z)=id; "
+    "C11": ("4 C11", "(value-dependent branches inside the propagators are followed: each case is re-run per path condition, <= 12 combinations) algebraic part only: z=0 returns the input; unit-magnification group law P(z2)oP(z1)=P(z1+z2), P(-z)oP(z)=id; "
             "m then 1/m recovers the input; lensAgainst = oneStepFresnel(U*lens); twoStepFresnel = two chained oneStepFresnel through z/(1-m) "
             "with output spacing d2; each also after a history of other calls; N in {2,4} quick / up to 8 thorough; "
             "NOT claimed: angular-spectrum vs Fresnel agreement, Gaussian beam, Airy pattern (not algebraic identities)",
@@ -150,7 +150,7 @@ CLAIMED = {
             "size - with two symbolic amplitudes), on every path of decisions taken on slope values; get_tps_time_axis = k*frame_rate/n for symbolic "
             "frame rate and n <= 9 quick / a range up to 101 thorough (odd n included)",
             "'follows the analytic structure function on generated screens' is statistical - outside."),
-    "C20": ("5 C20", "for 55 public entry points (list in the evidence; foreign-kernel functions named as skipped) on symbolic arrays and every "
+    "C20": ("5 C20", "(+ the Karhunen-Loeve structure-function copies; + the same call before and after OTHER calls padded to the same transform size) for 55 public entry points (list in the evidence; foreign-kernel functions named as skipped) on symbolic arrays and every "
             "feasible path: every array argument term-identical after the call (shape, dtype tag, every element; nested list arguments of "
             "CovarianceMatrix included), a second call returns the same terms, results of two calls share no storage and a call made after "
             "the first result was overwritten in place returns the same (memoised arrays are caught), a call with the SAME argument objects "
